@@ -104,6 +104,9 @@ class SymEx:
     def assume(self, cond):
         self.c.assume(cond)
 
+    def assume_eq(self, a, b):
+        self.c.assume(P.cmp(a, b, '=='))
+
     def under(self, cond):
         """Context manager: temporarily add a hypothesis; yields whether it is feasible."""
         import contextlib
@@ -425,6 +428,11 @@ class ConEx:
 
     def assume(self, cond):
         if not bool(np.all(cond)):
+            raise AssumptionViolated()
+
+    def assume_eq(self, a, b):
+        # model values are rounded to floats: an equality holds up to that rounding
+        if not abs(float(a) - float(b)) <= 1e-9 * (1.0 + abs(float(b))):
             raise AssumptionViolated()
 
     def under(self, cond):
